@@ -452,7 +452,7 @@ theorem dsExtend_abs (us : Units) (h : Heap) (d e : DS) (h' : Heap) (d' : DS)
     split at hfin
     · simp at hfin
     · rename_i acc1 s1 hloop
-      have hm : MemoGood (d.numObs + e.numObs) { heap := h } := by intro a v hav; simp at hav
+      have hm : MemoGood (d.numObs + e.numObs) { heap := h, conv := us.conv } := by intro a v hav; simp at hav
       have hf_rect := (rectFields_iff d.fields).mp hd
       have hg_rect := (rectFields_iff e.fields).mp he
       have inv0 : AccInv h d.numObs e.numObs (names d.fields) (fun _ => False) d.fields :=
@@ -460,9 +460,9 @@ theorem dsExtend_abs (us : Units) (h : Heap) (d e : DS) (h' : Heap) (d' : DS)
           fun _ => ⟨hf_rect c hc, List.mem_map_of_mem hc⟩⟩⟩
       have hgs : ∀ g ∈ e.fields, RectField h e.numObs g ∧ WFF g := fun g hg => ⟨hg_rect g hg, oke.wff g hg⟩
       obtain ⟨⟨e1, m1⟩, inv1⟩ := loop1_spec us d.numObs e.numObs (names d.fields) e.fields (fun _ => False)
-        d.fields { heap := h } acc1 s1 hloop hm inv0 hgs oke.nodup (fun g _ hx => hx)
+        d.fields { heap := h, conv := us.conv } acc1 s1 hloop hm inv0 hgs oke.nodup (fun g _ hx => hx)
       obtain ⟨a1, pl1⟩ := loop1_abs us d.numObs e.numObs (names d.fields) e.fields (fun _ => False)
-        d.fields { heap := h } acc1 s1 hloop hm inv0 hgs oke.nodup (fun g _ hx => hx)
+        d.fields { heap := h, conv := us.conv } acc1 s1 hloop hm inv0 hgs oke.nodup (fun g _ hx => hx)
         (fun c hc _ => mem_plainL d.fields hpd c hc) hpe
       have a2 := appendLoop_abs d.numObs e.numObs (onlyInSelf (names d.fields) (names e.fields) e.numObs) acc1 s1 fs' s2
         hfin m1 (by
